@@ -300,7 +300,7 @@ def _check(args):
         if r.get("type") == "range":
             r["parameters"] = rng.choice(["start=0.5 end=5 step=1", "step=0.5 start=0 end=5", "start=1 end=10 step=1", "start=0.5", "end=9", "start=1 end=2.5 step=0.5"])
         if r.get("name") and not r["type"].startswith(("begin", "end")) and rng.random() < 0.3:
-            r["bind::custom"] = rng.choice(["v1", "x y", "yes"])
+            r[rng.choice(["bind::custom", "bind::custom", "bind::tag", "bind::toParseString"])] = rng.choice(["v1", "x y", "yes"])
         if r.get("name") and not r["type"].startswith(("begin", "end")) and rng.random() < 0.15:
             # a custom attribute in a declared namespace whose local name is that of an attribute pyxform writes itself
             r[rng.choice(["bind::ex:type", "bind::ex:required", "bind::ex:relevant", "bind::ex:constraint", "bind::ex:readonly"])] = "custom"
